@@ -3,7 +3,7 @@ package storage
 // Bounded stand-in for the parts of C09 no contract covers (merge of layers, disk cursors):
 // random histories of put/delete/flush over stacks of cache layers on each backend, every
 // range scan compared with a single ordered reference map. Bound: keys of 1..4 bytes over a
-// 3-letter alphabet under two 1-byte prefixes, up to 3 layers, up to 40 operations per
+// 5-byte alphabet (three letters and the two prefix bytes) under two 1-byte prefixes, up to 3 layers, up to 40 operations per
 // history, one put in eight stores an empty value, every scan is made four times (synchronous with full
 // keys, stopped by the consumer after a random number of entries, limited to a random number of cache layers, asynchronous with the prefix cut), VERIF_BOUNDED_ITERS histories per backend (default 400),
 // seed VERIF_SEED.
@@ -101,7 +101,9 @@ func TestVerifBoundedC09(t *testing.T) {
 				l := min + r.Intn(4)
 				k := make([]byte, l)
 				for i := range k {
-					k[i] = byte('a' + r.Intn(3))
+					// three letters plus the two prefix bytes themselves: a key whose body repeats its
+					// prefix is, with the prefix cut, byte-equal to another full key (D16)
+					k[i] = []byte{'a', 'b', 'c', byte(STStorage), byte(DataMPT)}[r.Intn(5)]
 				}
 				return k
 			}
